@@ -790,7 +790,26 @@ impl Engine {
     }
 
     /// ibc-hooks delivery, or (for the `*Direct` selectors) a plain local call by the native address itself
+    /// Prefix under which the intermediate account of this delivery is derived: the chain's own, except that with a
+    /// different configured protocol prefix the authentic staker / collector deliveries come from the account derived
+    /// under the *configured* prefix (the account C09 says is accepted).
+    fn hook_prefix(&self, who: &HookWho) -> String {
+        if self.prefix_foreign() && matches!(who, HookWho::Staker | HookWho::Collector) {
+            self.m.cfg.pprefix.clone()
+        } else {
+            self.a.pprefix.clone()
+        }
+    }
+
     fn hook_call(&mut self, who: &HookWho, channel: &str, native_sender: &str, denom: &str, amount: u128, msg: ExecuteMsg) -> (String, TxOutcome) {
+        let hp = self.hook_prefix(who);
+        if hp != self.a.pprefix {
+            let sender = hooks_sender(channel, native_sender, &hp);
+            self.ch.faucet(&sender, denom, amount);
+            self.stats.flags.insert("delivery_under_configured_foreign_prefix");
+            let out = self.ch.execute(&sender, &[Coin::new(amount, denom)], msg);
+            return (sender, out);
+        }
         if matches!(who, HookWho::StakerDirect | HookWho::CollectorDirect) {
             self.ch.faucet(native_sender, denom, amount);
             self.stats.flags.insert("native_address_as_local_sender");
@@ -829,7 +848,8 @@ impl Engine {
         // reference derivation from the *configuration* (what the property says is accepted)
         let accepted = hooks_sender(&self.m.cfg.channel, &self.m.cfg.staker, &self.m.cfg.pprefix);
         let direct = matches!(who, HookWho::StakerDirect | HookWho::CollectorDirect);
-        let actual = if direct { native_sender.clone() } else { hooks_sender(&channel, &native_sender, &self.a.pprefix) };
+        let local = direct || self.hook_prefix(who) != self.a.pprefix;
+        let actual = if direct { native_sender.clone() } else { hooks_sender(&channel, &native_sender, &self.hook_prefix(who)) };
         let due = mb.as_ref().and_then(|b| b.due);
         let (exp, tags): (Expect, Vec<&'static str>) = if self.m.halted {
             (Expect::Err, vec!["C10"])
@@ -853,7 +873,7 @@ impl Engine {
         }
         let before0 = self.bank_snapshot();
         let (inter, out) = self.hook_call(who, &channel, &native_sender, denom, amount, ExecuteMsg::ReceiveUnstakedTokens { batch_id: id });
-        let before = if direct { let mut b = before0; *b.entry((native_sender.clone(), denom.to_string())).or_insert(0) += amount; b } else { before0 };
+        let before = if local { let mut b = before0; *b.entry((inter.clone(), denom.to_string())).or_insert(0) += amount; b } else { before0 };
         let what = format!("DeliverUnstaked batch={id} amount={amount} from={native_sender} via={channel} denom_ok={} hook={inter} now={now} due={due:?}", !wrong_denom);
         self.note(format!("{what} -> {}", out.ok));
         self.stats.bump(if out.ok { "Deliver.ok" } else { "Deliver.err" });
@@ -919,7 +939,8 @@ impl Engine {
         let denom = if wrong_denom { OTHER_DENOM } else { STAKED_DENOM };
         let accepted = hooks_sender(&self.m.cfg.channel, &self.m.cfg.collector, &self.m.cfg.pprefix);
         let direct = matches!(who, HookWho::StakerDirect | HookWho::CollectorDirect);
-        let actual = if direct { native_sender.clone() } else { hooks_sender(&channel, &native_sender, &self.a.pprefix) };
+        let local = direct || self.hook_prefix(who) != self.a.pprefix;
+        let actual = if direct { native_sender.clone() } else { hooks_sender(&channel, &native_sender, &self.hook_prefix(who)) };
         let fee = mul_div_floor(self.m.cfg.fee_rate, r, 100_000);
         let (exp, tags): (Expect, Vec<&'static str>) = if self.m.halted {
             (Expect::Err, vec!["C10"])
@@ -946,7 +967,7 @@ impl Engine {
         }
         let before0 = self.bank_snapshot();
         let (inter, out) = self.hook_call(who, &channel, &native_sender, denom, r, ExecuteMsg::ReceiveRewards {});
-        let before = if direct { let mut b = before0; *b.entry((native_sender.clone(), denom.to_string())).or_insert(0) += r; b } else { before0 };
+        let before = if local { let mut b = before0; *b.entry((inter.clone(), denom.to_string())).or_insert(0) += r; b } else { before0 };
         let what = format!("DeliverRewards r={r} from={native_sender} via={channel} denom_ok={} hook={inter} fee_rate={} treasury={:?} fail={fail}", !wrong_denom, self.m.cfg.fee_rate, self.m.cfg.treasury);
         self.note(format!("{what} -> {}", out.ok));
         self.stats.bump(if out.ok { "Rewards.ok" } else { "Rewards.err" });
@@ -1579,10 +1600,20 @@ impl Engine {
                 self.identity_changed = true;
             }
             CfgChange::ProtocolPrefix(k) => {
-                let len = [0usize, 2, 10, 44, 83, 84][*k as usize % 6];
-                let newp = if len == 0 { self.a.pprefix.clone() } else { format!("p{}", "q".repeat(len - 1)) };
+                let len = [0usize, 2, 10, 44, 83, 84][*k as usize % 9 % 6];
+                // 6..=8: an all-upper-case spelling (stored in lower case) with the punctuation bech32 allows in a prefix
+                let newp = match *k as usize % 9 {
+                    6 => "MILK_WAY".to_string(),
+                    7 => "A@B[C]^D".to_string(),
+                    8 => self.a.pprefix.to_uppercase(),
+                    _ if len == 0 => self.a.pprefix.clone(),
+                    _ => format!("p{}", "q".repeat(len - 1)),
+                };
                 new_prefix_len = Some(newp.len());
-                next.pprefix = newp.clone();
+                next.pprefix = newp.to_ascii_lowercase();
+                if newp != next.pprefix {
+                    self.stats.flags.insert("uppercase_protocol_prefix");
+                }
                 next.oracle = None;
                 let mut p = self.protocol_cfg();
                 p.account_address_prefix = newp;
